@@ -145,6 +145,7 @@ type Run struct {
 	Br         *Broker
 	Subm       []*Submission
 	Quiescent  bool   // sentinel acknowledged, queues empty
+	Livelock   bool   // LivelockConns healthy connections after stabilisation without the sentinel being acknowledged
 	Stuck      bool   // watchdog fired and the system was certified quiescent (no progress possible)
 	Inconcl    string // non-empty: why no verdict can be given
 	EndSeq     int    // events after this seq belong to tear-down
@@ -179,6 +180,31 @@ type Handled struct {
 	Payload string
 	QoS     byte
 	Seq     int
+}
+
+// LivelockConns is the number of healthy connections after stabilisation within which the
+// closing sentinel must have been acknowledged.
+const LivelockConns = 25
+
+func healthyConnsAfterStabilise(ev []memnet.Event) int {
+	n := 0
+	after := false
+	acc := map[int]bool{}
+	for _, e := range ev {
+		if e.Kind == memnet.KNote && strings.HasPrefix(e.S, "stabilised") {
+			after = true
+		}
+		if !after {
+			continue
+		}
+		if e.Kind == memnet.KSend && e.Pkt != nil && e.Pkt.Type == mqttref.CONNACK && e.Pkt.Code == 0 {
+			acc[e.Seq] = true
+		}
+		if e.Kind == memnet.KConsumed && acc[e.Ref] {
+			n++
+		}
+	}
+	return n
 }
 
 // Sentinel is the tag of the closing QoS 1 publish.
@@ -519,7 +545,19 @@ func Exec(sc *Scenario) *Run {
 	tr.Mu.Unlock()
 	if !sc.NoSentinel {
 		submit(9999, Step{Op: "pub", QoS: 1, Tag: Sentinel})
-		ok := tr.WaitFor(Watchdog, func() bool { return AckConsumedLocked(tr, "P:"+Sentinel) })
+		// Bounded progress instead of a time bound: after stabilisation every connection is healthy,
+		// so a correct client needs one (a few) connection(s) to complete what is pending. If
+		// LivelockConns accepted connections come and go without the sentinel being acknowledged,
+		// the client is live-locked (it keeps reconnecting but never gets the work done).
+		tr.WaitFor(Watchdog, func() bool {
+			return AckConsumedLocked(tr, "P:"+Sentinel) || healthyConnsAfterStabilise(tr.Events) >= LivelockConns
+		})
+		tr.Mu.Lock()
+		ok := AckConsumedLocked(tr, "P:"+Sentinel)
+		if !ok && healthyConnsAfterStabilise(tr.Events) >= LivelockConns {
+			r.Livelock = true
+		}
+		tr.Mu.Unlock()
 		if ok {
 			// The first sentinel may have been acknowledged from inside a running Retry task that still
 			// has re-subscriptions behind it. A second sentinel is a new task: it runs only after that
@@ -540,6 +578,8 @@ func Exec(sc *Scenario) *Run {
 			if !r.Quiescent {
 				r.Inconcl = "sentinel acknowledged but queues did not drain"
 			}
+		} else if r.Livelock {
+			// verdict by connection count, see above
 		} else {
 			// certified stuck?
 			if r.certifyStuck() {
